@@ -44,6 +44,42 @@ def profile_dependent_source(root=None):
     return False
 
 
+def extra_quick_configs(root=None):
+    """Configurations the quick tier adds to `default` because the SOURCE says that the code differs under them in ways the default
+    build cannot show: `nodebug` when `debug_assertions` is named, the feature configurations when a feature is tested negatively
+    (`not(feature = ..)`) or with `cfg!(..)`.  Today's tree names none of these, so its quick run is the default build alone; the
+    thorough tier always runs all of them."""
+    src = os.path.join(root or REPO, "src")
+    text = []
+    for dp, dn, fn in os.walk(src):
+        for x in fn:
+            if x.endswith(".rs"):
+                try:
+                    with open(os.path.join(dp, x), errors="replace") as fh:
+                        text.append(fh.read())
+                except OSError:
+                    pass
+    text = "\n".join(text)
+    out = []
+    # a feature test anywhere but on the module declarations / re-exports of lib.rs and on a `cfg_attr(.., derive(..))`
+    stray = False
+    for dp, dn, fn in os.walk(src):
+        for x in fn:
+            if x.endswith(".rs") and x != "lib.rs":
+                try:
+                    with open(os.path.join(dp, x), errors="replace") as fh:
+                        for line in fh:
+                            if re.search(r"feature\s*=", line) and not re.search(r"cfg_attr\(\s*feature\s*=\s*\"\w+\"\s*,\s*derive\(", line) and not line.lstrip().startswith("//"):
+                                stray = True
+                except OSError:
+                    pass
+    if re.search(r"\bdebug_assertions\b", text):
+        out.append("nodebug")
+    if stray or re.search(r"not\s*\(\s*feature\b|cfg!\s*\(\s*(not|any|all)?\s*\(?\s*feature\b|not\s*\(\s*(any|all)\s*\(\s*feature\b", text):
+        out += [c for c in CONFIGS if c not in ("default", "nodebug")]
+    return out
+
+
 class ExtractionError(Exception):
     pass
 
@@ -247,6 +283,7 @@ class Body:
         self.impl_trait = d.get("impl_trait")
         self.trait_provided = d.get("trait_provided")
         self.shadow_of = None
+        self.ident_suffix = ""
         self.file = d["span"]["file"]
         self.line = d["span"]["lo"]
         self._succ = None
@@ -276,7 +313,7 @@ class Body:
             return base + "::" + self.id[len(self.d["root"]):].lstrip(":")
         if self.impl_self:
             if self.impl_trait:
-                return "%s as %s::%s" % (self.self_head, self.trait_head, self.name)
+                return "%s as %s::%s%s" % (self.self_head, self.trait_head, self.name, self.ident_suffix)
             return "%s::%s" % (self.self_head, self.name)
         if self.trait_provided:
             return "%s::%s (provided)" % (self.trait_head, self.name)
@@ -397,8 +434,9 @@ class Body:
 
 
 class Facts:
-    def __init__(self, path):
+    def __init__(self, path, alias=True):
         self.path = path
+        self.alias = alias
         with open(path) as fh:
             self.raw = json.load(fh)
         self.bodies = []
@@ -413,7 +451,9 @@ class Facts:
         self.items = self.raw.get("items", [])
         self.reachable = set(self.raw.get("reachable", []))
         self.shadows = []
-        self._alias_shadows()
+        self.shadow_conflicts = []
+        if alias:
+            self._alias_shadows()
         self.by_ident = {}
         for b in self.bodies:
             self.by_ident.setdefault(b.ident, []).append(b)
@@ -463,6 +503,24 @@ class Facts:
             b.shadow_of = hit
             b.impl_trait = "<%s as %s>" % (b.impl_self, hit)
             self.shadows.append(b)
+        # the type may have a real impl of the very trait method as well (still reached through UFCS and generic code): in this
+        # view the real one steps aside under a marked identity, and the check also runs on the un-aliased view (see `views`)
+        for b in self.shadows:
+            for o in self.bodies:
+                if o is not b and o.kind != "Closure" and o.shadow_of is None and o.impl_trait and o.self_head == b.self_head and o.name == b.name and o.trait_head == b.trait_head:
+                    o.ident_suffix = " (trait impl; hidden by an inherent method at method-call sites)"
+                    self.shadow_conflicts.append((b, o))
+
+    def views(self):
+        """the fact views a check must run on: this one, plus the un-aliased one when an inherent method hides a trait method
+        that the type ALSO implements itself (then both bodies are live: `x.m()` and `Trait::m(&x)` / generic code)"""
+        if self.alias and self.shadow_conflicts:
+            g = Facts(self.path, alias=False)
+            for k in ("root", "config"):
+                if hasattr(self, k):
+                    setattr(g, k, getattr(self, k))
+            return [self, g]
+        return [self]
 
     def find(self, self_head=None, trait_head=None, name=None, kind=None):
         out = []
